@@ -33,6 +33,11 @@ struct Known {
     addrs: Vec<SocketAddr>,
 }
 
+/// A peer counts as free of failure history at `tick` only if its last recorded state is a success.
+fn not_before_hist_ok(hist: &[(u64, Option<u64>)], tick: u64) -> bool {
+    hist.iter().filter(|(t, _)| *t <= tick).last().map(|x| x.1 == Some(0)).unwrap_or(true)
+}
+
 fn run(input: RunInput) -> ScenFuture {
     Box::pin(async move {
         let w = World::new(&input, LinkCfg::clean(200, 3_000));
@@ -244,6 +249,7 @@ fn run(input: RunInput) -> ScenFuture {
         let mut not_before: Vec<u64> = vec![0; n_targets];
         let mut unresolved_until: Vec<u64> = vec![0; n_targets];
         let mut per_tick: BTreeMap<u64, u64> = BTreeMap::new();
+        let mut fails_hist: Vec<Vec<(u64, Option<u64>)>> = vec![vec![(0, Some(0))]; n_targets];
         // attempts of the dialer (background or explicit) that are certain to stay unresolved until
         // their connect timeout: destinations that are dead, or blocked for the whole window
         let mut certain_pending: Vec<(u64, u64)> = Vec::new();
@@ -363,7 +369,63 @@ fn run(input: RunInput) -> ScenFuture {
                 fails[k] = None;
                 not_before[k] = 0;
             }
+            fails_hist[k].push((*at, fails[k]));
         }
+        // ---- liveness while the history is still running: a High peer without failure history
+        //      whose next address answers is connected within one period (+ handshake time) of
+        //      becoming eligible (fresh insert, or loss of its connection) ----
+        let handshake_allow = (6 * lat_max / 1000 + 50) * MS;
+        let mut candidates: Vec<(u64, usize, &'static str)> = Vec::new();
+        for (t, k, e) in &known_hist {
+            if *t < t_final {
+                if let Some(e) = e {
+                    if matches!(e.affinity, PeerAffinity::High) && e.addrs.first() == Some(&targets[*k].addr) {
+                        candidates.push((*t, *k, "insert"));
+                    }
+                }
+            }
+        }
+        for (t, e) in &events {
+            if let PeerEvent::LostPeer(p, _) = e {
+                if let Some(k) = ids.iter().position(|x| x == p) {
+                    if *t < t_final {
+                        candidates.push((*t, k, "lost"));
+                    }
+                }
+            }
+        }
+        let mut liveness_checked = 0u64;
+        for (t_e, k, why) in candidates {
+            let tick = next_tick_at_or_after(t_e + 3 * MS);
+            let deadline = tick + handshake_allow;
+            if deadline >= t_final {
+                continue;
+            }
+            // the peer must be a stable, eligible, reachable High peer over the whole window
+            let entry = known_at(t_e, k);
+            let stable = !known_hist.iter().any(|(t, kk, _)| *kk == k && *t > t_e && *t <= deadline) && !blocked_hist.iter().any(|(t, kk, _)| *kk == k && *t > t_e.saturating_sub(ct_ms * MS) && *t <= deadline);
+            let blocked_now = blocked_hist.iter().filter(|(t, kk, _)| *kk == k && *t <= t_e).last().map(|x| x.2).unwrap_or(false);
+            let eligible = matches!(&entry, Some(e) if matches!(e.affinity, PeerAffinity::High) && e.addrs.first() == Some(&targets[k].addr));
+            let no_history = fails_hist[k].iter().filter(|(t, _)| *t <= tick).last().map(|x| x.1 == Some(0)).unwrap_or(false) && not_before_hist_ok(&fails_hist[k], tick);
+            let (conn, amb) = connected_at(t_e + MS, &ids[k]);
+            let explicit_near = explicit.iter().any(|(t, a)| *a == targets[k].addr && *t + ct_ms * MS > t_e && *t <= deadline);
+            if !stable || blocked_now || !eligible || !no_history || conn || amb || explicit_near {
+                continue;
+            }
+            // the cap may legitimately postpone it: other dials started at that tick or still in flight
+            let others = per_tick.get(&tick).copied().unwrap_or(0) as usize;
+            let in_flight = certain_pending.iter().filter(|(a, b)| *a < tick && tick < *b).count();
+            let dialed = attempts.iter().any(|(at, to)| *to == targets[k].addr && *at >= tick && *at <= tick + 2 * MS);
+            if !dialed && others + in_flight >= cap {
+                continue;
+            }
+            liveness_checked += 1;
+            let connected = events.iter().any(|(t, e)| *t > t_e && *t <= deadline && matches!(e, PeerEvent::NewPeer(q) if *q == ids[k]));
+            if !connected {
+                w.violate("eligible-high-peer-not-dialed-within-one-interval", why, format!("t{k} became eligible at {} ms ({why}); the next tick is at {} ms; {} ms after it (handshake allowance) it is still not connected (dialed at that tick: {dialed})", t_e / MS, tick / MS, handshake_allow / MS));
+            }
+        }
+        w.probe_n("liveness-windows-checked", liveness_checked);
         // S6: no background dial is started while the number of connections being established is
         // at the cap: new dials of one tick <= cap - attempts certainly still in flight
         for (tick, cnt) in &per_tick {
